@@ -49,5 +49,7 @@ for d in sorted(glob.glob('/verif/seeded/C*')):
         "checks_run_against_it": checks,
         "origin": "fresh sub-agent given only the property text and a scratch worktree",
     }
+    if os.path.exists(d + '/note.txt'):
+        meta["note"] = open(d + '/note.txt').read().strip()
     json.dump(meta, open(d + '/meta.json', 'w'), indent=1, ensure_ascii=False)
     print(pid, checks)
